@@ -12,7 +12,7 @@ RULE = ("Generated programs (string literals include comment look-alikes such as
         "VT, NBSP), // comments and /* */ comments (content: quotes, keywords, //, *, /, braces, non-ASCII, line breaks) "
         "between every pair of tokens, before the first and after the last, including the fully minified and the "
         "one-token-per-line variant. Oracle: parse_source(variant) == parse_source(single-space rendering) (AST equality) and "
-        "identical evaluator results on boundary inputs (random seeded identically when there is no splitter). Non-trivial = "
+        "identical evaluator results on boundary inputs (random seeded identically when there is no splitter), also when the variant arrives through recompile() on a live evaluator that holds the plain rendering or the sibling text whose comment-ending line break is a blank. Non-trivial = "
         "variant containing at least one comment; distinct by variant text.")
 ASSUMPTIONS = [
     "no comment is placed inside the two-word tokens `not in` / `else if` (only their inner whitespace varies)",
@@ -36,12 +36,39 @@ def cases(draw):
     toks = M.program_tokens(prog)
     variants = []
     for style in draw(st.sampled_from([[None, None, "min"], [None, "lines", None, "dense-comments"], [None, None, None],
-                                       ["dense-comments", "min", None, None, "lines"]])):
+                                       ["dense-comments", "min", None, None, "lines"], ["comment-line-before-salt", None],
+                                       ["comment-line-before-salt", "min", None]])):
         text, tags = draw(gen_text.trivia_variant(toks, style))
         variants.append({"text": text, "tags": tags})
     iv = gen.interesting_values(prog, classes)
     inputs = [M.enc_inputs(draw(gen.inputs_for(prog, classes, iv))) for _ in range(draw(st.integers(2, 5)))]
     return {"prog": prog, "inputs": inputs, "variants": variants}
+
+
+def _sibling(text):
+    """the text with the first line break that ends a // comment replaced by a blank (None if there is no such comment)"""
+    i = 0
+    n = len(text)
+    while i < n:
+        c = text[i]
+        if c in "\"'":
+            j = text.find(c, i + 1)
+            if j < 0:
+                return None
+            i = j + 1
+        elif text.startswith("/*", i):
+            j = text.find("*/", i + 2)
+            if j < 0:
+                return None
+            i = j + 2
+        elif text.startswith("//", i):
+            j = text.find("\n", i)
+            if j < 0:
+                return None
+            return text[:j] + " " + text[j + 1:]
+        else:
+            i += 1
+    return None
 
 
 def _outcomes(ev, inputs, seeded):
@@ -90,6 +117,27 @@ def judge(case):
         out1 = _outcomes(r1[1], case["inputs"], seeded)
         if out1 != out0:
             viol.append("trivia changed evaluation results %r -> %r | variant=%r | base=%s" % (out0, out1, text, base))
+            continue
+        # the same holds when the variant arrives through recompile() on a live evaluator that holds (a) another variant,
+        # (b) the sibling text in which the line break ending a // comment is a blank (a different program, or invalid)
+        holders = [("the single-space rendering", base)]
+        sib = _sibling(text)
+        if sib is not None:
+            holders.append(("its sibling with the comment's line break replaced by a blank", sib))
+            tags.add("recompile-from-sibling")
+        for what, held in holders:
+            rh = sut.compile_text(held)
+            if rh[0] != "ok":
+                continue
+            try:
+                rh[1].recompile(text)
+            except Exception as e:
+                viol.append("recompile(variant) raised %s: %s on an evaluator holding %s | variant=%r" % (type(e).__name__, e, what, text))
+                continue
+            out2 = _outcomes(rh[1], case["inputs"], seeded)
+            if out2 != out0:
+                viol.append("after recompile(variant) on an evaluator holding %s the results are %r instead of %r | held=%r | variant=%r"
+                            % (what, out2, out0, held, text))
     return {"viol": viol[:4], "nontrivial": bool(nt_keys), "tags": sorted(tags), "key": nt_keys or [base],
             "sample": {"base": base[:200], "variant": (case["variants"][0]["text"])[:300]}}
 
